@@ -198,6 +198,14 @@ func (s *V2Session) buildAndSend(ctx context.Context, c ipmi.Command) error {
 		if _, err := s.decode(response, &s.layers); err != nil {
 			return err
 		}
+		// the session layer only verifies the signature of packets claiming
+		// to be authenticated, and has no idea which session is ours
+		if !s.v2SessionLayer.Authenticated {
+			return errUnauthenticatedResponse
+		}
+		if s.v2SessionLayer.ID != s.LocalID {
+			return errWrongSessionResponse
+		}
 		types := layerexts.DecodedTypes(s.layers)
 		if err := types.InnermostEquals(ipmi.LayerTypeMessage); err != nil {
 			return err
